@@ -76,6 +76,8 @@ func run(c *Case, st *stats) *vf.Failure {
 	everEvictable := map[types.PageID]bool{} // dirty pages that were unpinned to zero (may have been evicted since)
 	deallocated := map[types.PageID]bool{}
 	deallocPending := map[types.PageID]bool{} // deallocated with isNoWait while pinned; the pin is still held
+	var ghosts []types.PageID                 // allocated, never written, unpinned clean: a later fetch may fail (nothing to read); their content is unspecified
+	isGhost := map[types.PageID]bool{}
 
 	removeID := func(l []types.PageID, id types.PageID) []types.PageID {
 		var o []types.PageID
@@ -116,7 +118,7 @@ func run(c *Case, st *stats) *vf.Failure {
 			if _, held := pins[id]; held {
 				return vf.Failf("new-id-in-use", "step %d: NewPage handed out page id %d although a holder still pins the page with that id", step, id)
 			}
-			if _, live := model[id]; live && !deallocPending[id] {
+			if _, live := model[id]; (live && !deallocPending[id]) || isGhost[id] {
 				return vf.Failf("new-id-in-use", "step %d: NewPage handed out page id %d which is still in use", step, id)
 			}
 			delete(deallocPending, id)
@@ -133,6 +135,39 @@ func run(c *Case, st *stats) *vf.Failure {
 			liveIDs = append(liveIDs, id)
 			pins[id] = &pin{pg: pg, count: 1, modified: true}
 			pinnedIDs = append(pinnedIDs, id)
+		case "new-clean": // a page that is allocated and released without ever being written
+			if !capacity() {
+				continue
+			}
+			pg := bpm.NewPage()
+			if pg == nil {
+				return vf.Failf("new-nil", "step %d: NewPage returned nil with %d of %d frames pinned", step, len(pins)+leaked, c.N)
+			}
+			id := pg.GetPageID()
+			_, held := pins[id]
+			if _, live := model[id]; held || (live && !deallocPending[id]) || isGhost[id] {
+				return vf.Failf("new-id-in-use", "step %d: NewPage handed out page id %d which is still in use", step, id)
+			}
+			delete(deallocPending, id)
+			delete(deallocated, id)
+			bpm.UnpinPage(id, false)
+			ghosts = append(ghosts, id)
+			isGhost[id] = true
+			st.classes["page-released-unwritten"] = true
+		case "fetch-ghost": // may fail (there is nothing to read); whatever it does, other pages must keep their bytes
+			if len(ghosts) == 0 || !capacity() {
+				continue
+			}
+			id := ghosts[op.T%len(ghosts)]
+			pg := bpm.FetchPage(id)
+			if pg == nil {
+				st.classes["fetch-of-unwritten-page-failed"] = true
+				continue
+			}
+			if pg.GetPageID() != id {
+				return vf.Failf("fetch-wrong-page", "step %d: FetchPage(%d) returned page %d", step, id, pg.GetPageID())
+			}
+			bpm.UnpinPage(id, false)
 		case "fetch":
 			if len(liveIDs) == 0 {
 				continue
@@ -324,7 +359,7 @@ func firstDiff(a, b []byte) int {
 func genOp(t *rapid.T) Op {
 	k := rapid.SampledFrom([]string{"new", "new", "new", "new", "fetch", "fetch", "fetch", "fetch", "fetch", "write", "write", "write",
 		"unpin", "unpin", "unpin", "unpin", "unpin", "unpin", "unpin", "unpin", "unpin",
-		"flush", "flushall", "flushdirty", "dealloc", "dealloc-nowait", "dealloc-nowait-pinned", "reopen"}).Draw(t, "k")
+		"flush", "flushall", "flushdirty", "dealloc", "dealloc-nowait", "dealloc-nowait-pinned", "reopen", "new-clean", "fetch-ghost", "fetch-ghost"}).Draw(t, "k")
 	op := Op{K: k, T: rapid.IntRange(0, 30).Draw(t, "t")}
 	switch k {
 	case "write":
@@ -353,7 +388,7 @@ func genCase(t *rapid.T, noNoWait bool) *Case {
 	return c
 }
 
-const rule = "Case = (pool of 2-12 frames, in-memory or file-backed disk manager, 5-120 operations by simulated users holding pin handles: NewPage, FetchPage of a live id, write bytes into a pinned page, UnpinPage(dirty|clean; dirty whenever the holder modified the page), FlushPage, FlushAllPages, FlushAllDirtyPages, deallocation in the skip-list shape (SetIsDeallocated+unpin+DeallocatePage(id,false)) and in the hash-join shapes (DeallocatePage(id,true) on an unpinned / on a still pinned page), fresh pool on the same disk after FlushAllPages). Oracle: map model id -> bytes last written; FetchPage returns those bytes, the same frame object as other pins, a pinned handle never changes id or bytes, NewPage never returns a live id. Non-trivial = a page that had been modified and unpinned to zero was fetched again when no frame held it any more (eviction + re-fetch), or a deallocated id was handed out again."
+const rule = "Case = (pool of 2-12 frames, in-memory or file-backed disk manager, 5-120 operations by simulated users holding pin handles: NewPage, FetchPage of a live id, write bytes into a pinned page, UnpinPage(dirty|clean; dirty whenever the holder modified the page), FlushPage, FlushAllPages, FlushAllDirtyPages, deallocation in the skip-list shape (SetIsDeallocated+unpin+DeallocatePage(id,false)) and in the hash-join shapes (DeallocatePage(id,true) on an unpinned / on a still pinned page), fresh pool on the same disk after FlushAllPages; pages that are allocated and released without ever being written, and later fetches of them, which may fail). Oracle: map model id -> bytes last written; FetchPage returns those bytes, the same frame object as other pins, a pinned handle never changes id or bytes, NewPage never returns a live id. Non-trivial = a page that had been modified and unpinned to zero was fetched again when no frame held it any more (eviction + re-fetch), or a deallocated id was handed out again."
 
 var assumptions = []string{
 	"never more distinct pinned pages than frames before a call that needs a frame (the clock replacer panics by design otherwise)",
